@@ -30,6 +30,8 @@ def run(prog, chk):
     ordering(prog, chk)
     non_contributors(prog, chk)
     degenerate_boxes(prog, chk)
+    builder_accumulates(prog, chk)
+    path_subpath_start(prog, chk)
     use_translation(prog, chk)
     clip_result_stored_whole(prog, chk)
     from props import C16
@@ -231,6 +233,85 @@ def degenerate_boxes(prog, chk):
     chk.floor("A7.degenerate-box", n[0], 2, "comparison of an intersection's width()/height() with 0")
     ok = bool(somes) and R.may_reach(b, somes, R.equality_assumption(b, subject))
     chk.ob(ok, "A7.degenerate-box", "intersect", b.where(), "an intersection of zero width or height is still returned as a box (both size tests admit equality)", "BoundingBox::intersect returns None for a zero-width or zero-height intersection: a clipped horizontal/vertical line (or text anchor) stops contributing to the root extent")
+
+
+def builder_accumulates(prog, chk):
+    """BoundingBoxBuilder::extend takes every box it is given into the accumulated box: no path returns without
+    writing `self.bbox` (a box of zero width and height - a text anchor, a point-like shape - still has a position)"""
+    b = prog.maybe_body("svgdx::position::BoundingBoxBuilder::extend")
+    if b is None:
+        chk.anchor_missing("A10.builder-accumulates", "BoundingBoxBuilder::extend not found")
+        return
+    chk.touch(b)
+    # references to places under (*self).bbox
+    refs = set()
+    for x, i, st in b.all_stmts():
+        rv = st.get("rv") or {}
+        if rv.get("k") == "ref" and st.get("lhs") and not st["lhs"][1]:
+            pl = P(rv["place"])
+            if pl[0] == 1 and ".bbox" in [str(z) for z in pl[1]]:
+                refs.add(st["lhs"][0])
+
+    def writes_acc(pl):
+        pl = P(pl)
+        return (pl[0] == 1 and ".bbox" in [str(z) for z in pl[1]]) or (pl[0] in refs and pl[1] and pl[1][0] == "*")
+
+    wblocks = set()
+    for x, i, st in b.all_stmts():
+        if st.get("lhs") and writes_acc(st["lhs"]):
+            wblocks.add(x)
+    for x, t in b.calls():
+        if t.get("dest") and writes_acc(t["dest"]):
+            wblocks.add(t.get("t", x))
+            wblocks.add(x)
+    rets = [x for x in b.reachable if b.term(x)["k"] == "ret"]
+    chk.floor("A10.builder-accumulates", len(wblocks), 2, "write of the accumulated box in BoundingBoxBuilder::extend")
+    skip = [x for x in rets if x in b.reach([0], avoid=wblocks)] if 0 not in wblocks else []
+    chk.ob(not skip, "A10.builder-accumulates", "BoundingBoxBuilder::extend", b.where(), "extend() takes every box it is given into the accumulated box (no early return)", "BoundingBoxBuilder::extend can return without updating the accumulated box: some boxes (e.g. zero-size ones: a standalone text anchor, a degenerate shape) are left out of the extent they belong to")
+
+
+def path_subpath_start(prog, chk):
+    """path data: closepath returns to the start of the *current* subpath, so the point a `z` goes back to is (re)set by
+    every moveto and by nothing else (SVG 1.1 8.3.2/8.3.3) - a later relative command continues from there, and the
+    extent of the path follows"""
+    b = prog.maybe_body("svgdx::path::PathParser::process_instruction")
+    if b is None:
+        chk.anchor_missing("A15.path-subpath", "PathParser::process_instruction not found")
+        return
+    chk.touch(b)
+    sw = [(x, b.term(x)) for x in b.reachable if b.term(x)["k"] == "switch" and b.term(x).get("ty") == "char" and len(b.term(x)["vals"]) >= 10]
+    if len(sw) != 1:
+        chk.anchor_missing("A15.path-subpath", f"process_instruction: expected one dispatch on the command letter, found {len(sw)}")
+        return
+    sx, st = sw[0]
+
+    def resets(body):
+        """does every path through this PathParser method assign self.start_pos?"""
+        w = {x for x, i, s_ in body.all_stmts() if s_.get("lhs") and P(s_["lhs"])[0] == 1 and ".start_pos" in [str(z) for z in P(s_["lhs"])[1]]}
+        rets = [x for x in body.reachable if body.term(x)["k"] == "ret"]
+        return bool(w) and not [x for x in rets if x in body.reach([0], avoid=w)] and 0 not in w or (bool(w) and 0 in w)
+
+    sites = []
+    for x, i, s_ in b.all_stmts():
+        if s_.get("lhs") and P(s_["lhs"])[0] == 1 and ".start_pos" in [str(z) for z in P(s_["lhs"])[1]]:
+            sites.append(x)
+    for (x, t, c) in b.call_sites(lambda c: c.path.startswith("svgdx::path::PathParser::")):
+        cb = prog.maybe_body(c.path)
+        if cb is not None and resets(cb):
+            sites.append(x)
+    letters = set()
+    bad = []
+    for x in sites:
+        vs = {v for v, tgt in st["vals"] if tgt == x or b.dominates(tgt, x)}
+        if not vs:
+            bad.append(b.where(x))
+        letters |= vs
+    names = "".join(sorted(chr(v) for v in letters))
+    chk.ob(bool(sites) and not bad and letters == {ord("M"), ord("m")}, "A15.path-subpath", "process_instruction:start", b.where(sx), "the point closepath returns to is reset by M and m, and by no other command", f"the subpath start that `z` returns to is reset under the commands '{names}' ({len(sites)} site(s){', outside the dispatch: ' + ', '.join(bad) if bad else ''}) - it must be every moveto (M, m) and nothing else: after a second subpath (or a lineto) `z` returns to the wrong point, and a following relative command moves the path's extent")
+    # the closepath arm takes its target from start_pos
+    zt = {tgt for v, tgt in st["vals"] if v in (ord("Z"), ord("z"))}
+    reads = [x for (x, i, node) in R.place_reads(b, (".start_pos",)) if any(x == z or b.dominates(z, x) for z in zt)]
+    chk.ob(bool(reads), "A15.path-subpath", "process_instruction:close", b.where(sx), "Z / z move to the recorded subpath start", "the closepath arm no longer reads the recorded subpath start")
 
 
 def use_translation(prog, chk):
